@@ -108,7 +108,7 @@ def main():
     # ---- full scale
     lim = (1 << 18) + 3000
     plans = [('increasing', lim, 'hex'), ('dup-at-boundary', lim, 'str'), ('dup-heavy', lim, 'hex'), ('shuffled', lim, 'str'), ('exactly-cap-then-dups', 1 << 18, 'hex'), ('readd-trigger', (1 << 18) + 60, 'str'),
-             ('increasing', 1 << 20, 'hex')]
+             ('increasing', 1 << 20, 'hex'), ('shuffled', lim + 40000, 'mixed')]
     if tier != 'quick':
         plans += [('increasing', 1 << 21, 'hex'), ('increasing', 1 << 21, 'str'), ('dup-heavy', 1 << 20, 'str'), ('shuffled', (1 << 18) + 2000, 'hex')]
     jobs = [{'op': 'hll_fullscale', 'pattern': pt, 'limit': lm, 'values': vk, 'seed': seed * 100 + i} for i, (pt, lm, vk) in enumerate(plans)]
